@@ -93,6 +93,9 @@ def _exec(self, s, st, frame):
             self.events.append(('inplace', s, cur.view_of, self.cur.qname if self.cur else ''))
             if isinstance(v, Num):
                 v.view_of = cur.view_of
+        if isinstance(s.target, ast.Name) and isinstance(cur, Num) and cur.is_array and isinstance(v, Num):
+            self.events.append(('store', s, cur.shape, taint_of(v) | self.pc, frozenset(), self.cur.qname if self.cur else ''))
+            self.written(s.target.id, cur, v, st, s)
         from .interp_expr import elementwise_seg
         elementwise_seg(s.op, cur, rhs, v)
         self.bind(s.target, v, st, s)
@@ -202,6 +205,8 @@ def bind(self, t, v, st, node):
     if self.pc and v is not None:
         v = v.with_taint(self.pc) if not isinstance(v, (Ref, FuncV, ClsV, ModV, ExtV, BoundMethod)) else v
     if isinstance(t, ast.Name):
+        if isinstance(v, Num) and v.is_array and v.mid is None:
+            v.mid = self.fresh_mid()
         st.env[t.id] = v
         return
     if isinstance(t, (ast.Tuple, ast.List)):
@@ -311,6 +316,15 @@ def store_subscript(self, t, v, st, node):
                             ab2 = segmap.norm_index(ab, shp[0])
                             ab = ab2 if ab2 is not None else ab
                         new.q = Q.q_store_scalar(self, bq, ab, nv.q, node)
+                elif shp is not None and len(shp) == 2 and isinstance(idx, Tup) and len(idx.items) == 2:
+                    from .interp_expr import _axis_desc
+                    rd, cd = _axis_desc(idx.items[0], shp[0]), _axis_desc(idx.items[1], shp[1])
+                    full_r = isinstance(idx.items[0], SliceV) and idx.items[0].lo is None and idx.items[0].hi is None \
+                        and idx.items[0].step is None
+                    if rd is not None and cd is not None and rd[0] == 'int' and cd[0] == 'int':
+                        new.q = Q.store_elem2(self, bq, rd[1], cd[1], nv.q, node)
+                    elif full_r and cd is not None and cd[0] == 'int':
+                        new.q = Q.store_column(self, bq, cd[1], nv.q, node)
             new.view_of = base.view_of
             new.mirror = nv.mirror if (b0.zero or b0.mirror == nv.mirror) else False
             if nv.zero:
@@ -329,6 +343,7 @@ def store_subscript(self, t, v, st, node):
             pend = self.frames[-1].__dict__.get('amap_pending', {})
             if tv.id in pend:
                 new.amap = pend[tv.id]
+            self.written(tv.id, base, new, st, node)
             st.env[tv.id] = new
         elif isinstance(tv, ast.Attribute):
             self.bind(tv, new, st, node)
@@ -408,6 +423,44 @@ def _store_2d(self, t, base, idx, v, st, node):
         elif isinstance(i0, SliceV) and isinstance(i1, SliceV) and v.amap == 'bad':
             pend[name] = 'bad'
             return
+    elif isinstance(idx, SliceV) and isinstance(v, Num) and idx.step is None and v.shape is not None and len(v.shape) == 2:
+        # C[a:b] = M  /  C[:] = M : the rows of M land at rows a.. of C
+        if v.amap == 'bad':
+            pend[name] = 'bad'
+            return
+        lo = _int_aff(idx.lo) if idx.lo is not None else Aff(0)
+        if lo is not None and base.shape[0] is not None:
+            lo2 = segmap.norm_index(lo, base.shape[0])
+            lo = lo2 if lo2 is not None else lo
+        if lo is not None and isinstance(v.amap, list) and v.amap:
+            full = idx.lo is None and idx.hi is None
+            news = [(r0 + lo, r1 + lo, k0, k1, ai, ak, c - lo.scale(ai), src, cj) for (r0, r1, k0, k1, ai, ak, c, src, cj) in v.amap]
+            if full:
+                cur = []            # the whole matrix is overwritten
+            for nb in news:
+                if repr(nb) not in [repr(b) for b in cur]:
+                    cur.append(nb)
+            pend[name] = cur
+            return
+    elif not isinstance(idx, (Tup, SliceV)) and _asint(idx) is not None and _asint(idx).a is not None and isinstance(v, Num) \
+            and v.rowof is not None and isinstance(v.rowof[0], list) and len(v.rowof[0]) == 1:
+        # C[e1] = M[e]: one row of a single-block matrix
+        blocks, e = v.rowof
+        e1 = _asint(idx).a
+        if base.shape[0] is not None:
+            e1n = segmap.norm_index(e1, base.shape[0])
+            e1 = e1n if e1n is not None else e1
+        r0, r1, k0, k1, ai, ak, c, src, cj = blocks[0]
+        s1 = [x for x in e1.t if x in Aff.BOUNDS]
+        s2 = [x for x in e.t if x in Aff.BOUNDS]
+        if not s1 and not s2:
+            new = (e1, e1 + 1, k0, k1, ai, ak, c + (e - e1).scale(ai), src, cj)
+        elif len(s1) == 1 and s1 == s2 and e1.t[s1[0]] == 1 and e.t[s1[0]] == 1:
+            I = s1[0]
+            loI, hiI = Aff.BOUNDS[I]
+            if loI is not None and hiI is not None:
+                rho = e1 - Aff.sym(I)
+                new = (loI + rho, hiI + rho, k0, k1, ai, ak, c + (e - e1).scale(ai), src, cj)
     if new is None:
         if isinstance(v, Num) and (v.zero or (isinstance(idx, Tup) and False)):
             return
@@ -655,6 +708,12 @@ def loop_fix(self, s, st, frame, head):
         certain = certain or info.get('certain', False)
         for c in info['conts']:
             out = join_st(out, c)
+        if isinstance(s, ast.While) and out is not None:
+            # the state that really reaches the test after one pass of the body (before it is merged with the entry state)
+            try:
+                self.eval(s.test, out.fork())
+            except PathEnd:
+                pass
         exits.extend(info['breaks'])
         new = join_st(cur, out)
         cur = new
